@@ -663,6 +663,21 @@ theorem inherited_list_methods_do_not_write_through (s : St) :
     (∀ v, accepts (step str s .inherited).1 v = accepts s v) := by
   simp [step]
 
+/-- … for every history: the calls of inherited `list` mutators can be struck out of any operation sequence
+without changing the state the Selector ends in (so every consistency theorem above holds with them interleaved
+anywhere, and they never repair or hide a divergence either). -/
+theorem inherited_calls_are_invisible (s : St) (ops : List Op) :
+    run str s (ops.filter (· ≠ .inherited)) = run str s ops := by
+  induction ops generalizing s with
+  | nil => rfl
+  | cons op ops ih =>
+    by_cases h : op = .inherited
+    · subst h
+      simpa [run, step] using ih s
+    · have := ih (step str s op).1
+      simp [run, List.filter_cons, h] at this ⊢
+      exact this
+
 /-- non-vacuity: a dict-declared Selector keeps both stores through an inherited mutator between two
 write-through ones -/
 example : (run pyStr { objs := [1, 2], names := [("a", 1), ("b", 2)] } [.popKey "a", .inherited, .setKey "c" 3]).names
